@@ -961,6 +961,13 @@ func (m *monitor) finale() {
 		m.label("inconclusive-livelock")
 		return
 	}
+	// C15 is judged here already, before any resync: everything has been delivered
+	// and every queue is empty, so the status must be the truth without the help of
+	// the periodic resync.
+	m.checkJobConfigStatus("before-resync")
+	if m.first() != nil {
+		return
+	}
 	// Event-driven progress under cross-resource lag is judged after one resync
 	// round (DESIGN.md 3.4); deadline-driven progress is judged by the armed
 	// re-syncs alone, so no resync happens after this point.
@@ -988,6 +995,38 @@ func (m *monitor) finale() {
 		}
 		if j.DeletionTimestamp != nil {
 			m.fail("C13", "deletion-stuck", "Job %s is being deleted, its tasks are gone, but it still exists", j.Name)
+		}
+	}
+}
+
+// checkJobConfigStatus: C15 - the status of every JobConfig equals the
+// authoritative sets.
+func (m *monitor) checkJobConfigStatus(when string) {
+	w := m.r.w
+	byJC := map[string][]*execution.Job{}
+	for _, j := range w.API.Jobs() {
+		if u := jcUIDOf(j); u != "" {
+			byJC[u] = append(byJC[u], j)
+		}
+	}
+	for _, jc := range w.API.JobConfigs() {
+		var active, queued []string
+		for _, j := range byJC[string(jc.UID)] {
+			if isActive(j) {
+				active = append(active, j.Name)
+			}
+			if isQueued(j) {
+				queued = append(queued, j.Name)
+			}
+		}
+		sort.Strings(active)
+		sort.Strings(queued)
+		gotA, gotQ := refNames(jc.Status.ActiveJobs), refNames(jc.Status.QueuedJobs)
+		if strings.Join(gotA, ",") != strings.Join(active, ",") || jc.Status.Active != int64(len(active)) {
+			m.fail("C15", "active-mismatch-"+when, "JobConfig %s status lists active %v (count %d), truth %v", jc.Name, gotA, jc.Status.Active, active)
+		}
+		if strings.Join(gotQ, ",") != strings.Join(queued, ",") || jc.Status.Queued != int64(len(queued)) {
+			m.fail("C15", "queued-mismatch-"+when, "JobConfig %s status lists queued %v (count %d), truth %v", jc.Name, gotQ, jc.Status.Queued, queued)
 		}
 	}
 }
